@@ -17,9 +17,10 @@ Theorem C01_engine_equals_scan : forall hash psl retr rules q t,
 Proof. exact engine_equals_scan. Qed.
 Print Assumptions C01_engine_equals_scan.
 
-(* never adds a non-matching rule — for ANY behaviour of the storage, failing retrievals included *)
+(* never adds a non-matching rule — for ANY behaviour of the storage on the indexes of the list
+   (whatever it hands out for a filed index is a rule of the list with that index), failing retrievals included *)
 Theorem C01_sound : forall hash psl retr rules q f,
-  (forall idx f, retr idx = Some f -> In (f, idx) rules) ->
+  (forall idx f, retr idx = Some f -> (exists f0, In (f0, idx) rules) -> In (f, idx) rules) ->
   In f (match_all hash psl retr (build_net hash rules) q) ->
   rmatch psl f q = true /\ In f (map fst rules).
 Proof. exact match_all_sound. Qed.
